@@ -85,7 +85,7 @@ package interp
 //@   opt preserve = F_interp_frame_id, F_interp_Interpreter_id, F_interp_node_interp
 //@   requires f != nil
 //@   -- C10: a frame handed to runCfg while no cancellation is in flight is current
-//@   requires [C10] frame-current: f.id == n.interp.id
+//@   requires [C10!] frame-current: f.id == n.interp.id
 
 // run: a top-level run uses the root frame (cf == nil) or a child of the given frame.
 //@ func (interp *Interpreter) run(n, cf)
